@@ -169,14 +169,13 @@ def exact_matrices():
     F4 = [[1, 1, 1, 1], [1, 1j, -1, -1j], [1, -1, 1, -1], [1, -1j, -1, 1j]]
     c3 = [[0, 0, 1], [1, 0, 0], [0, 1, 0]]
     X = [
-        _exact(_entry("x1r", [[1]], [3]), [("s2", [2]), ("m1", [-1])]),
+        _exact(_entry("x1r", [[1]], [3]), [("s2", [2])]),
         _exact(_entry("x1c", [[1]], [1 + 2j]), [("s2i", [2j]), ("s1", [1])]),
         _exact(_entry("xswap2", [[1, 1], [1, -1]], [1, -1]), [("e1", [1, 0]), ("m2e2", [0, -2])]),
         _exact(_entry("xrot2", [[1, 1], [-1j, 1j]], [1j, -1j]), [("e1", [1, 0]), ("2e2", [0, 2])]),
         _exact(_plain("xperm3", c3), [("e1", [1, 0, 0]), ("m2e3", [0, 0, -2])]),
         _exact(_entry("xperm4", F4, [1, 1j, -1, -1j]),
-               [("e1", [1, 0, 0, 0]), ("ones", [1, 1, 1, 1]), ("pm", [1, 1, -1, -1]), ("alt", [1, -1, 1, -1]),
-                ("4e3", [0, 0, 4, 0])]),
+               [("e1", [1, 0, 0, 0]), ("ones", [1, 1, 1, 1]), ("pm", [1, 1, -1, -1]), ("alt", [1, -1, 1, -1])]),
         _exact(_plain("xperm4b", _blocks(c3, [[1]])),
                [("2e1", [2, 0, 0, 0]), ("e4", [0, 0, 0, 1]), ("ones", [1, 1, 1, 1]), ("e3", [0, 0, 1, 0])]),
         _exact(_entry("xperm4s", [[1, 1, 0, 0], [1, -1, 0, 0], [0, 0, 1, 1], [0, 0, 1, -1]], [1, -1, 1, -1]),
@@ -184,12 +183,12 @@ def exact_matrices():
                 ("m2e4", _unit(4, 3, -2))]),
         _exact(_plain("xmono3", _perm([1, 2, 0], [2, 1, -2])), [("e1", [1, 0, 0]), ("4e2", [0, 4, 0])]),
         _exact(_plain("xmono3c", _perm([1, 2, 0], [1, -1j, 1j])), [("e1", [1, 0, 0]), ("ie3", [0, 0, 1j])]),
-        _exact(_entry("xdiag4", I4, [1, 2, 3, 4]), [("e3", _unit(4, 2)), ("m2e4", _unit(4, 3, -2)), ("e1", _unit(4, 0))]),
+        _exact(_entry("xdiag4", I4, [1, 2, 3, 4]), [("e3", _unit(4, 2)), ("m2e4", _unit(4, 3, -2))]),
         _exact(_entry("xdiag4s", I4, [1, -1, 1, -1]),
                [("ones", [1, 1, 1, 1]), ("e2", [0, 1, 0, 0]), ("pm", [1, 1, -1, -1])]),
         _exact(_entry("xdiag3z", [[1, 0, 0], [0, 1, 0], [0, 0, 1]], [0, 2, 3]), [("e1", [1, 0, 0]), ("e2", [0, 2, 0])]),
         _exact(_plain("xblk4", _blocks([[2, 1], [1, 2]], [[3, 1], [0, 3]])),
-               [("e1", _unit(4, 0)), ("e4", _unit(4, 3)), ("e3", _unit(4, 2)), ("m2e2", _unit(4, 1, -2))]),
+               [("e1", _unit(4, 0)), ("e4", _unit(4, 3)), ("e3", _unit(4, 2))]),
         _exact(_entry("xblk4h", [[1, 1, 0, 0], [1, -1, 0, 0], [0, 0, 1, 1], [0, 0, 1, -1]], [3, 1, 2, -2]),
                [("e1", _unit(4, 0)), ("e3", _unit(4, 2)), ("2e4", _unit(4, 3, 2))]),
         _exact(_plain("xblk4c", _blocks([[0, 1j], [-1j, 0]], [[2, 0], [0, 3]])),
@@ -197,7 +196,7 @@ def exact_matrices():
         _exact(_entry("xid4", I4, [1, 1, 1, 1]), [("ones", [1, 1, 1, 1]), ("e2", [0, 1, 0, 0]), ("alt", [1, -1, 1, -1])]),
         _exact(_entry("xid3s", [[1, 0, 0], [0, 1, 0], [0, 0, 1]], [2, 2, 2]), [("e1", [1, 0, 0]), ("m2e3", [0, 0, -2])]),
         _exact(_plain("xnil4", _perm([1, 2, 3, 0], [1, 1, 1, 0])),
-               [("e1", _unit(4, 0)), ("e3", _unit(4, 2)), ("e4", _unit(4, 3)), ("2e2", _unit(4, 1, 2))]),
+               [("e1", _unit(4, 0)), ("e3", _unit(4, 2)), ("e4", _unit(4, 3))]),
         _exact(_plain("xnil4u", _perm([3, 0, 1, 2], [0, 1, 1, 1])),
                [("e4", _unit(4, 3)), ("e2", _unit(4, 1)), ("e3", _unit(4, 2))]),
     ]
@@ -254,6 +253,154 @@ def cases():
             c["exact"] = bool(e.get("exact"))
             out.append(c)
     return out
+
+
+def exact_np(exp):
+    """TLC's exact Arnoldi factorisation (Krylov!ExactExport) as complex128 arrays: Q (n x KDim), H ((KDim+1) x KDim,
+    last sub-diagonal entry 0 = the exact breakdown)."""
+    xq, xh = exp["xq"], exp["xh"]
+    k = len(xq)
+    Q = np.array([[complex(x[0], x[1]) / q["d"] for x in q["e"]] for q in xq], dtype=np.complex128).T
+    H = np.zeros((k + 1, k), dtype=np.complex128)
+    for j, col in enumerate(xh):
+        assert len(col) == j + 2
+        for i, h in enumerate(col):
+            H[i, j] = complex(h["n"][0], h["n"][1]) / h["d"]
+    return Q, H
+
+
+# ------------------------------------------------------------------------------------------------------
+# exact-breakdown family beyond the TLC catalog: monomial / block-diagonal operators, KDim by construction
+def struct_specs():
+    """(name, n, operator recipe, starts, KDims): every entry of every Arnoldi vector is 0, +-1, +-i or +-1/2^k, so
+    the run is exact in floating point (same argument as Krylov!FPExact, here by construction)."""
+    R = ["f64", "f32", "c64"]
+    C = ["c128", "c64"]
+    out = []
+
+    def add(name, n, op, starts, dts=R):
+        out.append({"name": f"struct-{name}-n{n}", "n": n, "op": op, "starts": starts, "dts": dts})
+
+    # permutation with cycles (3)(4)(1)...: coordinate starts in different cycles, single and batched
+    add("perm-c3", 7, ("cycles", [3, 4]), [("e", 0, 2.0)])
+    add("perm-c4", 7, ("cycles", [3, 4]), [("e", 4, 1.0)])
+    add("perm-fix", 7, ("cycles", [3, 3, 1]), [("e", 6, -2.0)])
+    add("perm-batch", 7, ("cycles", [3, 2, 1, 1]), [("e", 0, 1.0), ("e", 3, 1.0), ("e", 5, 2.0)])
+    add("perm-const", 16, ("cycles", [4, 12]), [("const", 0, 4)])          # constant on a 4-cycle: eigenvector
+    add("perm-c5", 64, ("cycles", [5, 59]), [("e", 2, 1.0)])
+    add("perm-full", 13, ("cycles", [13]), [("e", 0, 1.0)])                # KDim = n
+    add("perm-c7", 200, ("cycles", [7, 193]), [("e", 3, 1.0)])
+    add("perm-batch", 200, ("cycles", [7, 2, 191]), [("e", 3, 1.0), ("e", 8, 1.0)], dts=["f64"])
+    # diagonal with eigenvector start, identity
+    add("diag", 5, ("diag", None), [("e", 2, 1.0)])
+    add("diag-batch", 6, ("diag", None), [("e", 1, 1.0), ("e", 4, -2.0)])
+    add("diag", 200, ("diag", None), [("e", 17, 1.0)])
+    add("ident", 9, ("ident", 3), [("e", 4, 1.0)])
+    add("ident-const", 16, ("ident", 1), [("const", 0, 16)])
+    # nilpotent shift: e_k -> e_(k+1) -> ... -> e_n -> 0
+    add("shift", 6, ("shift", None), [("e", 3, 1.0)])
+    add("shift-full", 8, ("shift", None), [("e", 0, 1.0)])
+    add("shift-batch", 6, ("shift", None), [("e", 5, 1.0), ("e", 2, 1.0), ("e", 4, 1.0)])
+    add("shift", 64, ("shift", None), [("e", 60, 2.0)])
+    # block diagonal: [[2,1],[1,2]] (+) [[3,1],[0,3]] (+) diag(4..): start supported on one block
+    add("block", 7, ("block", None), [("e", 0, 1.0)])
+    add("block-j", 7, ("block", None), [("e", 3, 1.0)])
+    add("block-batch", 9, ("block", None), [("e", 0, 1.0), ("e", 3, 1.0), ("e", 6, 1.0)])
+    add("block", 64, ("block", None), [("e", 1, -2.0)])
+    # complex monomial (weights 1, -i, i, 2) and the complex Hermitian block of the catalog, padded
+    add("cmono", 6, ("cmono", [4, 2]), [("e", 0, 1.0)], dts=C)
+    add("cmono-batch", 6, ("cmono", [4, 2]), [("e", 0, 1.0), ("e", 4, 1.0)], dts=["c128"])
+    add("cblock", 6, ("cblock", None), [("e", 0, 1.0)], dts=C)
+    # Hermitian members (also run by C14): symmetric permutations (swaps), Hermitian blocks
+    add("swaps", 7, ("cycles", [2, 2, 1, 2]), [("e", 0, 1.0)])
+    add("swaps-batch", 7, ("cycles", [2, 2, 1, 2]), [("e", 3, -2.0), ("e", 5, 1.0)])
+    add("swaps-const", 16, ("cycles", [2] * 8), [("const", 4, 4)])
+    add("swaps", 200, ("cycles", [2] * 100), [("e", 77, 1.0)])
+    add("hblock", 7, ("hblock", None), [("e", 1, 1.0)])
+    add("hblock-batch", 7, ("hblock", None), [("e", 0, 1.0), ("e", 3, 2.0)])
+    for sp in out:
+        A, _, sp["kdims"], _ = struct_case(dict(sp, dt="c128"))
+        sp["herm"] = bool(np.array_equal(A, A.conj().T))
+    return out
+
+
+def _cycles_perm(n, lens):
+    p, o = list(range(n)), 0
+    for L in lens:
+        for j in range(L):
+            p[o + j] = o + (j + 1) % L
+        o += L
+    assert o <= n
+    return p
+
+
+def struct_case(item):
+    """Returns (A complex128, start vectors, KDims, expected excited spectra or None).  KDim: monomial operators -
+    length of the orbit of the start coordinate until it returns or is annihilated (integer walk, no floating
+    point); block operator - size of the invariant block chain reached from the start coordinate."""
+    n, (kind, arg) = item["n"], item["op"]
+    A = np.zeros((n, n), dtype=np.complex128)
+    p = w = None
+    if kind == "cycles":
+        p, w = _cycles_perm(n, arg), [1] * n
+    elif kind == "diag":
+        p, w = list(range(n)), [1 + (j % 5) for j in range(n)]
+    elif kind == "ident":
+        p, w = list(range(n)), [arg] * n
+    elif kind == "shift":
+        p, w = [min(j + 1, n - 1) for j in range(n)], [1] * (n - 1) + [0]
+    elif kind == "cmono":
+        p, w = _cycles_perm(n, arg), [(1, -1j, 1j, 2)[j % 4] for j in range(n)]
+    if p is not None:
+        for j in range(n):
+            A[p[j], j] = w[j]
+    elif kind == "block":
+        A[:2, :2] = [[2, 1], [1, 2]]
+        A[2:4, 2:4] = [[3, 1], [0, 3]]
+        A[4:, 4:] = np.diag(np.arange(4, n))
+    elif kind == "hblock":
+        A[:2, :2] = [[2, 1], [1, 2]]
+        A[2:4, 2:4] = [[0, 2], [2, 0]]
+        A[4:, 4:] = np.diag(np.arange(4, n))
+    elif kind == "cblock":
+        A[:2, :2] = [[0, 1j], [-1j, 0]]
+        A[2:, 2:] = np.diag(np.arange(2, n))
+    else:
+        raise ValueError(kind)
+    vs, kdims, wants = [], [], []
+    for sk, k, c in item["starts"]:
+        v = np.zeros(n, dtype=np.complex128)
+        if sk == "e":
+            v[k] = c
+        else:               # constant on the c coordinates from k on (c a power of 4: norm a power of 2)
+            v[k:k + int(c)] = 1.0
+        vs.append(v)
+        if p is not None and sk == "e":
+            orbit, j = [k], k
+            while w[j] != 0 and p[j] not in orbit:
+                j = p[j]
+                orbit.append(j)
+            kd = len(orbit)
+            closed = w[j] != 0 and p[j] == k
+            if all(x == 1 for x in w) and closed:
+                want = [np.exp(2j * np.pi * q / kd) for q in range(kd)]
+            elif kd == 1:
+                want = [complex(w[k]) if p[k] == k else 0j]
+            elif not closed and w[j] == 0:
+                want = [0j] * kd
+            else:
+                want = None
+        elif p is not None:     # constant vector on a full cycle / on fixed points with equal weight: eigenvector
+            kd, want = 1, [complex(w[k])]
+        else:
+            lo, hi = (0, 2) if k < 2 else (2, 4) if (kind in ("block", "hblock") and k < 4) else (k, k + 1)
+            if kind == "block" and k == 2:
+                lo, hi = 2, 3       # e_3 is the eigenvector of the Jordan block
+            kd = hi - lo
+            want = [complex(x) for x in np.linalg.eigvals(A[lo:hi, lo:hi])]
+        kdims.append(kd)
+        wants.append(want)
+    return A, vs, kdims, wants
 
 
 def _pairs(rows):
@@ -317,6 +464,7 @@ def run_models(prop, wd, tier):
     return cs, stats
 
 
+TRACE_KEYS = ("alg", "n", "m", "mb", "b", "kd", "evs", "buf", "fin")
 TRACE_CFG = "SPECIFICATION Spec\nCONSTANTS\n Block = 64\nINVARIANT Verdict\n"
 
 
@@ -324,6 +472,8 @@ def _run_trace(wd, traces, fname, workers=16):
     path = os.path.join(wd, fname)
     with open(path, "w") as fh:
         for t in traces:
+            t = {k: t[k] for k in TRACE_KEYS if k in t}
+            t.setdefault("kd", 0)       # 0: not an execution of the exact-breakdown family
             fh.write(json.dumps(t) + "\n")
     os.environ["TRACE_FILE"] = path
     try:
@@ -372,7 +522,36 @@ def negative_controls(traces):
             t["evs"][1]["t"] = "F"                    # test failed but the loop went on
             if t["evs"][1]["r"]:
                 out.append(("test_false_but_continued", t))
+    # exact-breakdown family: a run that stopped on its own (exactly zero residual at kd < cap) is not explained by
+    # any other Krylov dimension
+    ex = [t for t in traces if t.get("kd", 0) > 0 and t["kd"] < min(t["m"], t["n"])
+          and all(e["t"] in ("T", "F") for e in t["evs"]) and t["fin"]["steps"] == t["kd"]]
+    for base in ex[:1] + ex[-1:]:
+        for d in (1, -1):
+            if base["kd"] + d >= 1 and (d > 0 or base["kd"] >= 2):
+                t = json.loads(json.dumps(base))
+                t["kd"] += d
+                out.append(("exact_kdim_shifted", t))
     return out
+
+
+def select_traces(traces, cap):
+    """At most `cap` traces for TLC: the executions of the exact-breakdown family first (tol = 0 before tol > 0, at
+    most half of the budget), the others by striding."""
+    if len(traces) <= cap:
+        return list(traces)
+
+    def stride(lst, k):
+        if len(lst) <= k:
+            return list(lst)
+        step = len(lst) / k
+        return [lst[int(i * step)] for i in range(k)]
+    ex0 = [t for t in traces if t.get("kd", 0) > 0 and t.get("tol", 1.0) == 0]
+    ex1 = [t for t in traces if t.get("kd", 0) > 0 and t.get("tol", 1.0) != 0]
+    rest = [t for t in traces if not t.get("kd", 0) > 0]
+    a = stride(ex0, cap // 3)
+    b = stride(ex1, cap // 2 - len(a))
+    return a + b + stride(rest, cap - len(a) - len(b))
 
 
 def validate_traces(prop, wd, traces):
@@ -416,7 +595,8 @@ class Recorder:
                 if alg is None or not rec.on or rec.meta is None or rec.meta.get("alg") != alg:
                     return while_fn(cond_fun, body_fun, init_val)
                 meta = rec.meta
-                tr = {"alg": alg, "n": int(meta["n"]), "m": int(meta["m"]), "evs": [], "tag": meta.get("tag", "")}
+                tr = {"alg": alg, "n": int(meta["n"]), "m": int(meta["m"]), "evs": [], "tag": meta.get("tag", ""),
+                      "kd": int(meta.get("kd", 0) or 0), "tol": float(meta["tol"])}
                 bodies = [0]
 
                 def cond(state):
